@@ -22,6 +22,8 @@ use std::fmt::Write as _;
 use std::panic::{catch_unwind, AssertUnwindSafe};
 
 pub fn gen_mat4(r: &mut Rng) -> Matrix4<f32> {
+    // a perspective camera (bottom row with a z term), as the CLI and the benchmarks use
+    if r.chance(0.15) { let mut m = Matrix4::identity(); m[(3, 2)] = *r.pick(&[0.3f32, 0.1, -0.2]); if r.chance(0.5) { m = m * Matrix4::new_scaling(1.2); } return m; }
     if r.chance(0.15) { let mut m = Matrix4::identity(); if r.chance(0.5) { m = Matrix4::from_euler_angles(r.unit() as f32 * 3.0, r.unit() as f32 * 3.0, r.unit() as f32 * 3.0); } m[(3, 3)] = *r.pick(&[2.0f32, 0.5, 1.6, 3.0]); return m; }
     match r.below(4) {
         0 => Matrix4::identity(),
@@ -56,7 +58,9 @@ pub fn run(seed: u64, count: usize, outdir: &str) -> std::io::Result<i32> {
     let mut nmodel = 0usize;
     for ci in 0..count {
         let mut r = rng.fork();
-        let g = if r.chance(0.7) { gen_csg(&mut r, true, false) } else { gen_expr(&mut r) };
+        let mut g = if r.chance(0.7) { gen_csg(&mut r, true, false) } else { gen_expr(&mut r) };
+        // sometimes the same solid written as -max(-s, 0): exactly -0.0 everywhere outside (a zero is not inside)
+        if r.chance(0.15) { let a = g.ctx.neg(g.root).unwrap(); let b = g.ctx.max(a, 0.0).unwrap(); g.root = g.ctx.neg(b).unwrap(); g.kind = "negative-zero-outside"; }
         let c = Cfg3 { w: r.range(1, 40) as u32, h: r.range(1, 40) as u32, d: r.range(1, 40) as u32, tiles: { let mut t = gen_tiles(&mut r); while t[0] > 64 || t.last().unwrap().pow(3) > 4096 { t = gen_tiles(&mut r); } t },
                        mat: gen_mat4(&mut r), threads: *r.pick(&[0usize, 0, 1, 2, 3, 5]) };
         let line = format!("c07 kind={} nodes={} {}x{}x{} tiles={:?} threads={} mat={:?}", g.kind, g.ctx.len(), c.w, c.h, c.d, c.tiles, c.threads, c.mat.as_slice());
@@ -85,7 +89,7 @@ pub fn run(seed: u64, count: usize, outdir: &str) -> std::io::Result<i32> {
                 if vals.iter().any(|v| v.is_nan()) { excluded = true; break; }
                 let v = vals[g.root.verif_index()];
                 let scale = vals.iter().fold(1.0f32, |a, b| a.max(b.abs()));
-                if v.abs() <= 1e-4 * scale { nearz = true; }
+                if v != 0.0 && v.abs() <= 1e-4 * scale { nearz = true; }   // an exact zero is simply not negative
                 if v < 0.0 { if z < c.d as usize { top = z as u32 + 1; } else { excluded = true; } }
             }
             ncols += 1;
